@@ -36,6 +36,10 @@ pub fn sem_jobs(thorough: bool, finish: bool) -> Vec<Job> {
             } else {
                 v.push(job(Cfg::new(fl, &[("fair", fair), ("permits", 0), ("k", 3), ("sizes", bits(&[1, 2])), ("cap", 3), ("rels", 1)]), finish, false));
             }
+            if fi == 0 {
+                // a request that does not fit into 32 bits (letter 7 = 2^32 + 2 permits) next to small ones
+                v.push(job(Cfg::new(fl, &[("fair", fair), ("permits", 3), ("k", 2), ("sizes", bits(&[2, 7])), ("cap", 5), ("rels", 1)]), finish, thorough));
+            }
             if fi == 2 {
                 // the user's last handle can be dropped while futures and releasers live on
                 let k = if thorough { 3 } else { 2 };
@@ -89,6 +93,11 @@ pub fn state_jobs(thorough: bool) -> Vec<Job> {
     for fl in ["state.local", "state.std", "state.shared"] {
         let k = if thorough { 3 } else { 2 };
         v.push(job(Cfg::new(fl, &[("k", k), ("sends", if thorough { 4 } else { 3 }), ("handles", if thorough { 3 } else { 2 })]), false, thorough));
+    }
+    // requests with an id that is AHEAD of the channel (taken from another channel that has seen
+    // more updates): must never complete with a state
+    for fl in ["state.local", "state.shared"] {
+        v.push(job(Cfg::new(fl, &[("k", 2), ("sends", if thorough { 3 } else { 2 }), ("handles", 2), ("foreign", 1)]), false, thorough));
     }
     if !thorough {
         v.push(job(Cfg::new("state.local", &[("k", 3), ("sends", 2), ("handles", 2)]), false, false));
@@ -163,6 +172,14 @@ pub fn ring_jobs(thorough: bool) -> Vec<Job> {
         v.push(job(Cfg::new("ring.fix", &[("cap", cap), ("len", len)]), true, thorough));
         v.push(job(Cfg::new("ring.grow", &[("cap", cap), ("len", len)]), true, thorough));
     }
+    // zero-sized elements with a Drop impl
+    let zlen = if thorough { 12 } else { 10 };
+    for cap in 0..=3i64 {
+        let name: &'static str = ["ringz.arr0", "ringz.arr1", "ringz.arr2", "ringz.arr3"][cap as usize];
+        v.push(job(Cfg::new(name, &[("cap", cap), ("len", zlen)]), true, thorough));
+        v.push(job(Cfg::new("ringz.fix", &[("cap", cap), ("len", zlen)]), true, thorough));
+        v.push(job(Cfg::new("ringz.grow", &[("cap", cap), ("len", zlen)]), true, thorough));
+    }
     // long scripted fill / drain cycles for large and unusual capacities
     v.push(job(Cfg::new("ringscript.arr63", &[("cap", 63)]), false, thorough));
     v.push(job(Cfg::new("ringscript.arr64", &[("cap", 64)]), false, thorough));
@@ -175,6 +192,8 @@ pub fn ring_jobs(thorough: bool) -> Vec<Job> {
 
 pub fn ds_jobs(thorough: bool) -> Vec<Job> {
     let mut v = vec![];
+    // 1 000 and 65 538 nodes: ascending / descending / equal / zig-zag keys, remove-min to empty
+    v.push(job(Cfg::new("ds.heapscript", &[("x", 0)]), false, thorough));
     v.push(job(Cfg::new("ds.list", &[("n", if thorough { 7 } else { 5 })]), false, thorough));
     v.push(job(Cfg::new("ds.heap", &[("n", if thorough { 6 } else { 5 }), ("key_values", 3)]), false, thorough));
     if !thorough {
@@ -327,6 +346,10 @@ pub fn plan(prop: &str, tier: &str) -> Vec<Job> {
         "C15" => {
             let mut v = timer_jobs(t);
             v.extend(burst_jobs(t, &[7]));
+            // value sweep of delay(d): every whole millisecond up to 20 s, sub-millisecond
+            // remainders, the neighbourhood of every power of two up to 2^70 ms
+            v.push(job(Cfg::new("timer.sweep.local", &[("x", 0)]), false, t));
+            v.push(job(Cfg::new("timer.sweep.std", &[("x", 0)]), false, t));
             v
         }
         "C08" => mpmc_jobs(t, true),
